@@ -22,6 +22,8 @@ def run(ctx):
     LK.k2_spec_roots(ctx, K, modules=("comb_spec_searcher",))
     LK.k6_one_way_table(ctx, K)
     LK.k7_seen_threading(ctx)
+    LK.k10_representative_freshness(ctx, K)
+    ctx.floor("K10", 4)
     ctx.floor("K1", 6)
     ctx.floor("K6", 2)
     ctx.floor("K7", 2)
